@@ -120,6 +120,42 @@ def check_mut(run, A):
         raise AnalysisError('R-MUT positive control (set_snr mutating N in place) was not recognised')
 
 
+def check_broadcast_writes(run, A, module_prefixes=None, rule='R-OVERLAP'):
+    """R-OVERLAP (expected count zero): no in-place effect lands on a broadcast view.  The elements of `np.broadcast_to(x, shape)` / `np.broadcast_arrays(x, ..)` along an
+    expanded axis are ONE memory location (stride 0): an in-place update with operands that differ along that axis is applied to the shared location once per index - the
+    slices of the leading axes are no longer independent problems (C06), and what the result is depends on numpy's buffering (C20).  numpy makes `broadcast_to` read-only for
+    that reason; `broadcast_arrays` is still writable (deprecated).  The tag travels with the value through views, conditionals and calls (context tree of every public callable)."""
+    ev = A.ev
+    entries = public_callables(A.prog, SCOPE_MODULES_C20)
+    n, seen = 0, set()
+    for fn in entries:
+        if module_prefixes and not any(fn.mod.name.startswith(p_.rstrip('.')) for p_ in module_prefixes):
+            continue
+        try:
+            ctx = ev.entry(fn)
+        except RecursionError:
+            continue
+        for c in ctx_tree(ctx):
+            for (e, tv, _v) in c.effects:
+                kind, node = effect_desc(e)
+                if kind.startswith('container') or not is_array_like(tv):
+                    continue
+                n += 1
+                tags = sorted({a[-1] for a in tv.alias if a and (a[0] == 'bcast' or (a[0] == 'maybe' and len(a) > 1 and a[1] == 'bcast'))})
+                if not tags:
+                    continue
+                key = (c.fn.qual, norm_stmt(node) if node is not None else kind)
+                if key in seen:
+                    continue
+                seen.add(key)
+                run.violation(rule, f'{c.fn.qual}: no in-place write to a broadcast view', c.fn.loc(node),
+                              f'in-place effect `{key[1]}` ({kind}) may land on the result of {" / ".join(tags)}: the elements along an expanded axis share one memory '
+                              f'location, the update is applied to it once per index and the leading slices are no longer computed independently',
+                              construct=f'{rule}::{c.fn.qual}::{key[1]}', path=c.chain())
+    run.count('in-place effects examined for broadcast views', n)
+    return n
+
+
 def report_global_effects(run, effects):
     """effects: (module, object, function) -> [(context, AST node, kind)] in-place effects that reach a module-level object.  A keyed store `TABLE[key] = value` whose value is computed from
     the key alone is a memo of a pure function (history-free); a value that depends on something the key ignores, an identity / rounded key, and every other kind of effect (a slot
@@ -617,6 +653,7 @@ def check(run):
     run.assumptions = ['objects returned by library calls not in the table may alias any argument (counted as unresolved, never a violation)',
                        'the Cython extensions (.pyx) are not built on this image and not analysed']
     check_mut(run, A)
+    check_broadcast_writes(run, A)
     check_state(run, A)
     check_instance_tables(run, A, ('pb_bss.distribution.', 'pb_bss.extraction.', 'pb_bss.permutation_alignment', 'pb_bss.evaluation.'))
     check_mutable_defaults(run, A)
